@@ -15,10 +15,17 @@ CONFIGS = {
     "quick": [("TdmsScaling", "TdmsScaling.cfg", {"MaxScales": 2, "RawTypes": '{"int16", "uint8", "float32"}'}),
               ("TdmsScaling", "TdmsScaling.cfg", {"MaxScales": 1, "RawTypes": '{"int32", "float64"}', "Shadow": "{TRUE}",
                                                   "UnaryKinds": '{"Linear", "NoOp"}', "BinaryKinds": "{}"}),
+              # DAQmx: two raw scalers (ids 0, 1) of differing types and up to two scales stacked on them
+              ("TdmsScaling", "TdmsScaling.cfg", {"MaxScales": 1, "RawTypes": '{"int16"}', "UnaryKinds": '{"Linear", "NoOp"}',
+                                                  "Levels": '{"channel"}', "DaqTypes": '{"int16", "uint8", "float32"}',
+                                                  "MaxDaqScales": 2}),
               # a chain of 12 scales (more scales than one digit), count given and inferred from the property names
               ("TdmsScaling", "TdmsScaling.cfg", {"MaxScales": 1, "RawTypes": '{"int16"}', "UnaryKinds": '{"NoOp"}',
                                                   "BinaryKinds": "{}", "LongChains": "{11, 12}"})],
-    "thorough": [("TdmsScaling", "TdmsScaling.cfg", {"MaxScales": 2, "RawTypes": '{"int8", "int16", "int32", "int64", '
+    "thorough": [("TdmsScaling", "TdmsScaling.cfg", {"MaxScales": 1, "RawTypes": '{"int16"}', "UnaryKinds": '{"Linear", "Polynomial", "NoOp"}',
+                                                     "Levels": '{"channel"}', "DaqTypes": '{"int16", "uint8", "int32", "float32", "uint64"}',
+                                                     "MaxDaqScales": 2}),
+                 ("TdmsScaling", "TdmsScaling.cfg", {"MaxScales": 2, "RawTypes": '{"int8", "int16", "int32", "int64", '
                                                      '"uint8", "uint16", "uint32", "uint64", "float32", "float64"}'}),
                  ("TdmsScaling", "TdmsScaling.cfg", {"MaxScales": 3, "RawTypes": '{"int16"}',
                                                      "UnaryKinds": '{"Linear", "Table"}', "Levels": '{"channel"}'}),
